@@ -481,6 +481,15 @@ func c09Run(b core.Batch, r *core.Recorder) {
 	}
 }
 
+// c09deadline: a batch takes seconds (quick) to a few minutes (thorough) on a healthy tree; a child that hangs on a
+// leaked lock is killed after this long and its goroutine dump is judged (blocked reservoir frames = a hang).
+func c09deadline(tier string) int {
+	if tier == "thorough" {
+		return 1200
+	}
+	return 240
+}
+
 func c09Plan(tier string, seed int64) []core.Batch {
 	stride := 256
 	if tier == "thorough" {
@@ -492,14 +501,14 @@ func c09Plan(tier string, seed int64) []core.Batch {
 			if tr == "tunnel" && part == "dir" && tier != "thorough" {
 				continue
 			}
-			bs = append(bs, core.Batch{Name: part + "-" + tr, TimeoutS: 1800, Args: map[string]any{"part": part, "transport": tr, "stride": stride}})
+			bs = append(bs, core.Batch{Name: part + "-" + tr, TimeoutS: c09deadline(tier), Args: map[string]any{"part": part, "transport": tr, "stride": stride}})
 		}
 		nb, cnt := 1, 80
 		if tier == "thorough" {
 			nb, cnt = 8, 1500
 		}
 		for i := 0; i < nb; i++ {
-			bs = append(bs, core.Batch{Name: fmt.Sprintf("random-%s-%d", tr, i), TimeoutS: 1800, Args: map[string]any{"part": "random", "transport": tr, "count": cnt, "sub": i}})
+			bs = append(bs, core.Batch{Name: fmt.Sprintf("random-%s-%d", tr, i), TimeoutS: c09deadline(tier), Args: map[string]any{"part": "random", "transport": tr, "count": cnt, "sub": i}})
 		}
 	}
 	return bs
